@@ -11,8 +11,9 @@
              Definition):  per parent, per pattern: absolute -> lookup(parent, T, key, pattern),
              else scan the children; a shared [found] set suppresses repeats.
    Stage B  (elements reached from other root kinds, collected first):
-     stageB_found   get_instances, get_libraries   (namemap for absolute patterns, [found] for the rest)
-     stageB_names   get_definitions (del_abs = false), get_ports, get_cables (del_abs = true)
+     stageB_found   get_instances, get_libraries   (namemap for absolute patterns, [found] for the rest;
+                    every yield removes the element from [found])
+     stageB_names   get_definitions, get_ports, get_cables (namemap; every yield deletes the name)
      stageB_netlists get_netlists
      stageB_hier    get_hinstances / get_hports / get_hpins / get_hcables / get_hwires
    The enumeration of the candidates (which parents / other elements a root object leads to) is the
@@ -61,18 +62,21 @@ Definition has_key (e : id) : bool := match key e with Some _ => true | None => 
 Definition em (p : str) (e : id) : bool := mt p (val e).
 Definition any_match (pats : list str) (e : id) : bool := existsb (fun p => em p e) pats.
 
-(* global_service.lookup when no fast lookup is registered for the key: first child with
-   key in child and child[key] == value *)
-Definition scan_lookup (children : list id) (p : str) : option id :=
-  find (fun c => match key c with Some w => str_eqb p w | None => false end) children.
+(* global_service.lookup returns a list. When no fast lookup is registered for the key: every child
+   with  key in child and child[key] == value  (in child order) *)
+Definition scan_lookup (children : list id) (p : str) : list id :=
+  filter (fun c => match key c with Some w => str_eqb p w | None => false end) children.
+
+(* a registered lookup answers with the one element its index holds, or None:
+   "return [] if result is None else [result]" *)
+Definition opt_list (o : option id) : list id := match o with Some e => [e] | None => [] end.
 
 (* what the namespace manager's registered lookup answers, by policy and key:
    - DEFAULT or EDIF policy, key .NAME: the child with that name              (= scan_lookup under C10's invariant)
    - EDIF policy, key EDIF.identifier: the child whose identifier is equal up to letter case
-   - DEFAULT policy, key EDIF.identifier: nothing (DefaultNamespace.lookup only answers .NAME) *)
-Definition lookup_lower (children : list id) (p : str) : option id :=
-  find (fun c => match key c with Some w => str_eqb (lower p) (lower w) | None => false end) children.
-Definition lookup_none (p : str) : option id := None.
+   - DEFAULT policy, key EDIF.identifier: NotImplemented, and global_service.lookup scans (= scan_lookup) *)
+Definition lookup_lower (children : list id) (p : str) : list id :=
+  opt_list (find (fun c => match key c with Some w => str_eqb (lower p) (lower w) | None => false end) children).
 
 (* ------------------------------------------------------------------------------------------ *)
 (* stage A *)
@@ -87,16 +91,19 @@ Fixpoint scan_children (nk : bool) (children : list id) (p : str) (found : list 
       else scan_children nk cs p found
   end.
 
-Definition stageA_pattern (nk : bool) (lk : str -> option id) (children : list id) (p : str)
+(* "for result in lookup(obj, T, key, pattern): if result not in found: found.add(result); yield result" *)
+Fixpoint yield_new (es : list id) (found : list id) : list id :=
+  match es with
+  | [] => []
+  | e :: rest => if memb e found then yield_new rest found else e :: yield_new rest (e :: found)
+  end.
+
+Definition stageA_pattern (nk : bool) (lk : str -> list id) (children : list id) (p : str)
            (found : list id) : list id :=
-  if ab p then
-    match lk p with
-    | Some e => if memb e found then [] else [e]
-    | None => []
-    end
+  if ab p then yield_new (lk p) found
   else scan_children nk children p found.
 
-Fixpoint stageA_parent (nk : bool) (lk : str -> option id) (children : list id) (pats : list str)
+Fixpoint stageA_parent (nk : bool) (lk : str -> list id) (children : list id) (pats : list str)
          (found : list id) : list id :=
   match pats with
   | [] => []
@@ -105,7 +112,7 @@ Fixpoint stageA_parent (nk : bool) (lk : str -> option id) (children : list id) 
   end.
 
 (* the parents reached from the root objects, each with its lookup function and its children *)
-Fixpoint stageA (nk : bool) (parents : list ((str -> option id) * list id)) (pats : list str)
+Fixpoint stageA (nk : bool) (parents : list ((str -> list id) * list id)) (pats : list str)
          (found : list id) : list id :=
   match parents with
   | [] => []
@@ -125,49 +132,16 @@ Fixpoint collect (others : list id) (found : list id) (nm : list (str * list id)
                  else collect rest (e :: found) (nm_add str_eqb (val e) e nm)
   end.
 
-(* get_instances, get_libraries: absolute -> namemap[pattern] (nothing is removed);
-   otherwise every element of [found] (stage A's finds included) that matches, removed from found *)
-Fixpoint stageB_found_pats (pats : list str) (found : list id) (nm : list (str * list id)) : list id :=
-  match pats with
-  | [] => []
-  | p :: ps =>
-      if ab p then nm_get str_eqb p nm ++ stageB_found_pats ps found nm
-      else filter (em p) found ++ stageB_found_pats ps (filter (fun e => negb (em p e)) found) nm
-  end.
-
-Definition stageB_found (others : list id) (pats : list str) (found : list id) : list id :=
+(* get_instances, get_libraries:
+     "yielded, found = found, set()
+      for o in others: if o in yielded or o in found: continue; found.add(o); namemap[name].append(o)"
+   [found] restarts empty: it holds the collected elements that no pattern has selected yet *)
+Fixpoint collect_fresh (others : list id) (yielded found : list id) (nm : list (str * list id))
+  : list id * list (str * list id) :=
   match others with
-  | [] => []                                              (* "if other_instances:" *)
-  | _ => let '(found', nm) := collect others found [] in stageB_found_pats pats found' nm
-  end.
-
-(* get_definitions (del_abs = false), get_ports / get_cables (del_abs = true):
-   absolute -> namemap[pattern] (and "del namemap[pattern]" in get_ports / get_cables);
-   otherwise every name of the namemap that matches: its elements, and the name is deleted *)
-Fixpoint stageB_names_pats (del_abs : bool) (pats : list str) (nm : list (str * list id)) : list id :=
-  match pats with
-  | [] => []
-  | p :: ps =>
-      if ab p then
-        nm_get str_eqb p nm ++ stageB_names_pats del_abs ps (if del_abs then nm_del str_eqb p nm else nm)
-      else
-        concat (map snd (filter (fun ne => mt p (fst ne)) nm))
-        ++ stageB_names_pats del_abs ps (filter (fun ne => negb (mt p (fst ne))) nm)
-  end.
-
-Definition stageB_names (del_abs : bool) (others : list id) (pats : list str) (found : list id) : list id :=
-  match others with
-  | [] => []
-  | _ => let '(_, nm) := collect others found [] in stageB_names_pats del_abs pats nm
-  end.
-
-(* get_netlists: every netlist reached is collected once; namemap keyed by obj.get(key, None) *)
-Fixpoint collect_netlists (objs : list id) (found : list id) (nm : list (option str * list id))
-  : list id * list (option str * list id) :=
-  match objs with
   | [] => (found, nm)
-  | e :: rest => if memb e found then collect_netlists rest found nm
-                 else collect_netlists rest (e :: found) (nm_add ostr_eqb (key e) e nm)
+  | e :: rest => if memb e yielded || memb e found then collect_fresh rest yielded found nm
+                 else collect_fresh rest yielded (e :: found) (nm_add str_eqb (val e) e nm)
   end.
 
 (* "for x in result: if x in live: live.remove(x); yield x" *)
@@ -177,6 +151,53 @@ Fixpoint take (es : list id) (live : list id) : list id * list id :=
   | e :: rest => if memb e live
                  then let '(y, live') := take rest (remove_all_in [e] live) in (e :: y, live')
                  else take rest live
+  end.
+
+(* absolute -> the elements of namemap[pattern] that are still in [found], removed from it;
+   otherwise every element of [found] that matches, removed from found *)
+Fixpoint stageB_found_pats (pats : list str) (found : list id) (nm : list (str * list id)) : list id :=
+  match pats with
+  | [] => []
+  | p :: ps =>
+      if ab p then
+        let '(y, found') := take (nm_get str_eqb p nm) found in
+        y ++ stageB_found_pats ps found' nm
+      else filter (em p) found ++ stageB_found_pats ps (filter (fun e => negb (em p e)) found) nm
+  end.
+
+Definition stageB_found (others : list id) (pats : list str) (yielded : list id) : list id :=
+  match others with
+  | [] => []                                              (* "if other_instances:" *)
+  | _ => let '(found', nm) := collect_fresh others yielded [] [] in stageB_found_pats pats found' nm
+  end.
+
+(* get_definitions, get_ports, get_cables:
+   absolute -> namemap[pattern], and "del namemap[pattern]";
+   otherwise every name of the namemap that matches: its elements, and the name is deleted *)
+Fixpoint stageB_names_pats (pats : list str) (nm : list (str * list id)) : list id :=
+  match pats with
+  | [] => []
+  | p :: ps =>
+      if ab p then
+        nm_get str_eqb p nm ++ stageB_names_pats ps (nm_del str_eqb p nm)
+      else
+        concat (map snd (filter (fun ne => mt p (fst ne)) nm))
+        ++ stageB_names_pats ps (filter (fun ne => negb (mt p (fst ne))) nm)
+  end.
+
+Definition stageB_names (others : list id) (pats : list str) (found : list id) : list id :=
+  match others with
+  | [] => []
+  | _ => let '(_, nm) := collect others found [] in stageB_names_pats pats nm
+  end.
+
+(* get_netlists: every netlist reached is collected once; namemap keyed by obj.get(key, None) *)
+Fixpoint collect_netlists (objs : list id) (found : list id) (nm : list (option str * list id))
+  : list id * list (option str * list id) :=
+  match objs with
+  | [] => (found, nm)
+  | e :: rest => if memb e found then collect_netlists rest found nm
+                 else collect_netlists rest (e :: found) (nm_add ostr_eqb (key e) e nm)
   end.
 
 Fixpoint stageB_netlists_pats (pats : list str) (found : list id) (nm : list (option str * list id)) : list id :=
@@ -221,14 +242,14 @@ Definition stageB_hier (hname : id -> str) (refs : list id) (in_yield : list id)
 (* ------------------------------------------------------------------------------------------ *)
 (* whole queries: stage A over the parents, then stage B over the other elements *)
 
-Inductive bkind := BFound | BNames (del_abs : bool).
+Inductive bkind := BFound | BNames.
 
-Definition query (nk : bool) (bk : bkind) (parents : list ((str -> option id) * list id))
+Definition query (nk : bool) (bk : bkind) (parents : list ((str -> list id) * list id))
            (others : list id) (pats : list str) : list id :=
   let ya := stageA nk parents pats [] in
   ya ++ match bk with
         | BFound => stageB_found others pats ya
-        | BNames d => stageB_names d others pats ya
+        | BNames => stageB_names others pats ya
         end.
 
 End Filter.
@@ -237,7 +258,7 @@ End Filter.
 (* the stages with patterns.py plugged in (what the correspondence run executes) *)
 
 Definition run_query (is_case is_re : bool) (key : id -> option str) (nk : bool) (bk : bkind)
-           (parents : list ((str -> option id) * list id)) (others : list id) (pats : list str) : list id :=
+           (parents : list ((str -> list id) * list id)) (others : list id) (pats : list str) : list id :=
   query key (matches_b is_case is_re) (absolute_b is_case is_re) nk bk parents others pats.
 
 Definition run_netlists (is_case is_re : bool) (key : id -> option str) (objs : list id) (pats : list str) : list id :=
